@@ -282,7 +282,28 @@ func (n *node) depth() int {
 
 // ---------- generators ----------
 
-var keyAlphabet = []string{"a", "b", "c", "", "ab", "é"}
+// member names: a few families whose members differ only by letter case or are equal only under
+// Unicode simple case folding (K = KELVIN SIGN U+212A folds to k, ſ to s, ẞ to ß); RFC 7396
+// names are exact, so every one of them is a different member
+var keyAlphabet = []string{"a", "A", "b", "c", "", "ab", "Ab", "AB", "é", "É", "ß", "ẞ", "k", "K", "\u212a", "s", "ſ"}
+
+var foldFamilies = [][]string{{"a", "A"}, {"ab", "Ab", "AB", "aB"}, {"é", "É"}, {"ß", "ẞ"}, {"k", "K", "\u212a"}, {"s", "S", "ſ"}, {"b", "B"}, {"c", "C"}}
+
+// caseVariant returns another spelling of the same name up to case folding ("" if none)
+func caseVariant(r *lib.Rng, k string) string {
+	for _, fam := range foldFamilies {
+		for _, m := range fam {
+			if m == k {
+				for tries := 0; tries < 8; tries++ {
+					if v := fam[r.Intn(len(fam))]; v != k {
+						return v
+					}
+				}
+			}
+		}
+	}
+	return ""
+}
 var numPoolCanon = []string{"0", "1", "-1", "2", "10", "0.5", "-2.5", "123456789", "1e+21", "1e-7"}
 var numPoolOther = []string{"1.0", "1e2", "-0", "1E3", "0.10", "100000000000000000000000", "2.50"}
 var strPool = []string{"", "a", "b", "x y", "null", "é", "\"q\"", "line\nbreak", "<&>"}
@@ -353,6 +374,20 @@ func patchFor(r *lib.Rng, t *node, depth int, dup bool) *node {
 			add(m.key, genScalar(r))
 		case 5:
 			add(m.key, gen(r, depth-1, dup))
+		}
+	}
+	for _, m := range t.obj { // same name in another letter case: must NOT touch the member
+		if r.Chance(1, 4) {
+			if v := caseVariant(r, m.key); v != "" {
+				switch r.Intn(3) {
+				case 0:
+					add(v, &node{kind: kNull})
+				case 1:
+					add(v, patchFor(r, m.val, depth-1, dup))
+				default:
+					add(v, genScalar(r))
+				}
+			}
 		}
 	}
 	for i, k := 0, r.Intn(3); i < k; i++ {
@@ -493,6 +528,34 @@ var knownFields = []field{
 	{[]string{"noAutoReload"}, []string{`true`}, true, []string{`[true]`, `{"v":true}`}},
 }
 
+// variantName spells a documented member name in another letter case ("" if it has no letters)
+func variantName(r *lib.Rng, name string) string {
+	for tries := 0; tries < 8; tries++ {
+		var v string
+		switch r.Intn(4) {
+		case 0:
+			v = strings.ToUpper(name[:1]) + name[1:]
+		case 1:
+			v = strings.ToUpper(name)
+		case 2:
+			v = strings.ToLower(name)
+		default:
+			i := r.Intn(len(name))
+			c := name[i : i+1]
+			if c == strings.ToLower(c) {
+				c = strings.ToUpper(c)
+			} else {
+				c = strings.ToLower(c)
+			}
+			v = name[:i] + c + name[i+1:]
+		}
+		if v != name {
+			return v
+		}
+	}
+	return ""
+}
+
 func wrap(path []string, val *node) *node {
 	for i := len(path) - 1; i >= 0; i-- {
 		val = &node{kind: kObj, obj: []member{{path[i], val}}}
@@ -513,7 +576,7 @@ func main() {
 	rng := lib.NewRng(f.Seed)
 	out := lib.NewOut("C36", f)
 	out.Imports = "From Verif Require Import Base.Json Model.MergePatch.\nImport ListNotations.\nOpen Scope string_scope.\nOpen Scope N_scope.\n"
-	out.Rule = "merge stream: target = random JSON document (nesting <= 4, member names from {a,b,c,\"\",ab,é}, <= 4 members, nulls/arrays/scalars at every level); patch derived from the target (delete / recurse / replace existing members, add new ones, sometimes permuted, sometimes with duplicate member names, sometimes unrelated or non-object), both sent as JSON text (random whitespace and \\u escapes) through json.Unmarshal + applyMergePatch + json.Marshal. config stream: canonicalConfigJSON of 4 real configurations x one-key patches of a known class (unknown member at a documented struct path or inside a route, documented field with a well-typed value, with a value of an incompatible JSON kind, null, non-object patch, not JSON) through mergeConfigPatch. distinct = distinct Coq case term; non-trivial = merge case whose patch is an object naming at least one existing target member, or config case"
+	out.Rule = "merge stream: target = random JSON document (nesting <= 4, member names from {a,A,b,c,\"\",ab,Ab,AB,é,É,ß,ẞ,k,K,KELVIN SIGN,s,ſ}; patches also address existing members by a name that differs only in letter case, <= 4 members, nulls/arrays/scalars at every level); patch derived from the target (delete / recurse / replace existing members, add new ones, sometimes permuted, sometimes with duplicate member names, sometimes unrelated or non-object), both sent as JSON text (random whitespace and \\u escapes) through json.Unmarshal + applyMergePatch + json.Marshal. config stream: canonicalConfigJSON of 4 real configurations x one-key patches of a known class (unknown member at a documented struct path or inside a route, a documented name spelled in another letter case with a value or with null, documented field with a well-typed value, with a value of an incompatible JSON kind, null, non-object patch, not JSON) through mergeConfigPatch. distinct = distinct Coq case term; non-trivial = merge case whose patch is an object naming at least one existing target member, or config case"
 
 	// printer/parser self-test: what is printed (with escapes) parses back to the same raw tree
 	{
@@ -584,6 +647,15 @@ func main() {
 				} else {
 					tags = append(tags, "adds-member")
 				}
+				if t.get(m.key) == nil && t.kind == kObj {
+					for _, tm := range t.obj {
+						if strings.EqualFold(tm.key, m.key) {
+							tags = append(tags, "name-differs-from-existing-only-by-case")
+							nt = true
+							break
+						}
+					}
+				}
 			}
 		} else {
 			tags = append(tags, "patch=non-object")
@@ -631,7 +703,33 @@ func main() {
 		var cls, patchText string
 		var patch *node
 		exact := false
-		switch r.Intn(11) {
+		caseVariant := false
+		switch r.Intn(15) {
+		case 11, 12: // a documented name in another letter case, with a value: an unknown member
+			cls = "PcUnknownField"
+			fd := knownFields[r.Intn(len(knownFields))]
+			path := append([]string{}, fd.path...)
+			si := r.Intn(len(path))
+			path[si] = variantName(r, path[si])
+			pool := append(append([]string{}, fd.vals...), fd.ill...)
+			patch = wrap(path, mustParse(pool[r.Intn(len(pool))]))
+			caseVariant = true
+		case 13, 14: // null for a documented name in another letter case: no such member, no-op
+			cls = "PcDeleteAbsent"
+			fd := knownFields[r.Intn(len(knownFields))]
+			path := append([]string{}, fd.path...)
+			path[len(path)-1] = variantName(r, path[len(path)-1])
+			patch = wrap(path, &node{kind: kNull})
+			// a no-op only when the enclosing objects exist; otherwise the RFC creates empty
+			// enclosing objects, which the encoder omits again (no member-for-member compare)
+			exact = true
+			for cur, i := base.doc, 0; i < len(path)-1; i++ {
+				if cur = cur.get(path[i]); cur == nil || cur.kind != kObj {
+					exact = false
+					break
+				}
+			}
+			caseVariant = true
 		case 0, 1, 2: // unknown member somewhere in a fixed-shape object
 			cls = "PcUnknownField"
 			name := "verif" + r.StringOver("abcdefghijklmnopqrstuvwxyzABC", r.Range(1, 8))
@@ -721,6 +819,9 @@ func main() {
 		tags := []string{"stream=config", "class=" + cls, "base=" + base.name, fmt.Sprintf("accepted=%v", accepted)}
 		if accepted && exact {
 			tags = append(tags, "candidate-compared")
+		}
+		if caseVariant {
+			tags = append(tags, "documented-name-in-other-letter-case")
 		}
 		out.Add(lib.App("ConfigCase", cls, base.name, ptTerm, lib.Bool(accepted), candTerm), desc, true, tags...)
 	}
